@@ -1504,6 +1504,10 @@ func (e *Exec) specCall(call *ast.CallExpr, c *Ctx) Term {
 					if imp.Name() != pid.Name {
 						continue
 					}
+					if tn, ok := imp.Scope().Lookup(se.Sel.Name).(*types.TypeName); ok && len(call.Args) == 1 {
+						// conversion to a named type of an imported package (urltree.Method(s))
+						return e.convert(e.eval(call.Args[0], c), e.prog.TypeOf(tn.Type(), nil), c)
+					}
 					if fn, ok := imp.Scope().Lookup(se.Sel.Name).(*types.Func); ok {
 						var args []Term
 						sig := fn.Type().(*types.Signature)
